@@ -69,6 +69,11 @@ def c20_step(b: bool, imp: bool, op: bool, fin: bool, sing: bool, failp: bool, f
       world.dflt()
   if fin:
     gin.finalize()
+    if b:
+      # calls and queries under a scope while the configuration is locked
+      with gin.config_scope('s'):
+        world.dflt()
+      gin.get_bindings('s/vw.dflt')
   del world.LOG[:]
   # ---------------------------------------------------------------------------
   try:
@@ -116,11 +121,21 @@ def c20_step(b: bool, imp: bool, op: bool, fin: bool, sing: bool, failp: bool, f
   want = {'gin.REQUIRED'} if clear_constants else {'gin.REQUIRED'} | set(defined)
   if names != want:
     return False
-  # registrations remain and new bindings work
+  # registrations remain and new bindings work, also once the configuration is locked again
   gin.bind_parameter('vw.dflt.a', v1)
+  gin.bind_parameter('s/vw.dflt.b', v1)
   del world.LOG[:]
   gin.get_configurable('vw.dflt')()
-  return rt.same('a', world.LOG[0][1][0], v1)
+  if not rt.same('a', world.LOG[0][1][0], v1):
+    return False
+  gin.finalize()
+  del world.LOG[:]
+  with gin.config_scope('s'):
+    world.dflt()
+  if not (rt.same('a locked', world.LOG[0][1][0], v1) and rt.same('b locked', world.LOG[0][1][1], v1)):
+    return rt.no('a call under scope s after clear + finalize does not see the new bindings')
+  got = gin.get_bindings('s/vw.dflt')
+  return (set(got) == {'a', 'b'} and rt.same('ga', got['a'], v1) and rt.same('gb', got['b'], v1)) or rt.no('get_bindings after clear')
 
 
 HARNESSES = {
